@@ -13,7 +13,7 @@ from pydiverse.transform._internal.backend.sql import SqlImpl
 from pydiverse.transform._internal.errors import NotSupportedError
 from pydiverse.transform._internal.ops import ops
 from pydiverse.transform._internal.tree import types
-from pydiverse.transform._internal.tree.col_expr import Cast, ColFn
+from pydiverse.transform._internal.tree.col_expr import CaseExpr, Cast, ColFn
 from pydiverse.transform._internal.util.warnings import warn_non_standard
 
 
@@ -32,6 +32,16 @@ class SqliteImpl(SqlImpl):
     @classmethod
     def default_collation(cls):
         return "BINARY"
+
+    @classmethod
+    def compile_col_expr(cls, expr, sqa_expr, *, compile_literals=True):
+        res = super().compile_col_expr(expr, sqa_expr, compile_literals=compile_literals)
+        if isinstance(expr, CaseExpr) and isinstance(res, sqa.Cast) and isinstance(res.type, sqa.Date | sqa.DateTime):
+            # DATE / DATETIME have numeric affinity in SQLite: CAST('1999-12-31' AS DATE)
+            # is the integer 1999. Dates are stored as text, only the SQLAlchemy type
+            # has to be attached.
+            return sqa.type_coerce(res.clause, res.type)
+        return res
 
     @classmethod
     def compile_cast(cls, cast: Cast, sqa_col: dict[str, sqa.Label]) -> sqa.Cast:
